@@ -109,3 +109,137 @@ package trzsz
 //@     invariant forall j int {buf[j]} :: 0 <= j && j < idx ==> buf[j] == x[j]
 //@     invariant i > 0 ==> idx > 0
 //@ end
+
+// ===========================================================================
+// C03 / C16  stream reassembly (buffer.go)
+// ===========================================================================
+
+//@ # The byte stream a trzszBuffer b will ever receive is a fixed (unknown) ghost
+//@ # sequence G[b]; it arrives as chunks k = 0,1,2,... of length clen[b][k] > 0
+//@ # starting at absolute position cstart[b][k]. recvd[b] counts the chunks taken
+//@ # from the channel so far. Only recvd changes; receiving reveals the stream.
+//@ global G map[int]map[int]int
+//@ global cstart map[int]map[int]int
+//@ global clen map[int]map[int]int
+//@ global recvd map[int]int
+
+//@ func chan:trzszBuffer.bufCh.recv trusted
+//@   assigns recvd
+//@   ensures recvd == upd(old(recvd), recv, old(recvd)[recv] + 1)
+//@   ensures len(r0) == clen[recv][old(recvd)[recv]] && len(r0) > 0 && ref(r0) != 0
+//@   ensures cstart[recv][old(recvd)[recv] + 1] == cstart[recv][old(recvd)[recv]] + len(r0)
+//@   ensures forall j int {r0[j]} :: 0 <= j && j < len(r0) ==> r0[j] == G[recv][cstart[recv][old(recvd)[recv]] + j]
+//@   ensures ref(r0) != bufArr[recv.readBuf]
+
+//@ func chan:trzszBuffer.bufCh.send trusted
+//@   requires len(p0) > 0
+//@   assigns nothing
+
+//@ # representation invariant of the cursor. A chunk that has been read to its end may
+//@ # stay in nextBuf (it is never looked at again); only an unfinished chunk is constrained.
+//@ pure tbWF(b *trzszBuffer) bool = \
+//@     (b.nextBuf == nil ==> b.nextIdx == 0) && 0 <= b.nextIdx && b.nextIdx <= len(b.nextBuf) && \
+//@     (b.nextBuf != nil && b.nextIdx < len(b.nextBuf) ==> \
+//@         len(b.nextBuf) == clen[b][recvd[b] - 1] && \
+//@         cstart[b][recvd[b]] == cstart[b][recvd[b] - 1] + len(b.nextBuf) && \
+//@         ref(b.nextBuf) != bufArr[b.readBuf] && ref(b.nextBuf) <= alloc() && \
+//@         (forall j int {b.nextBuf[j]} :: 0 <= j && j < len(b.nextBuf) ==> \
+//@             b.nextBuf[j] == G[b][cstart[b][recvd[b] - 1] + j]))
+
+//@ # absolute position of the next unread byte
+//@ pure cur(b *trzszBuffer) int = ite(b.nextBuf != nil && b.nextIdx < len(b.nextBuf), \
+//@     cstart[b][recvd[b] - 1] + b.nextIdx, cstart[b][recvd[b]])
+
+//@ func trzszBuffer.addBuffer
+//@   requires len(buf) > 0
+//@ end
+
+//@ func trzszBuffer.nextBuffer
+//@   requires tbWF(b)
+//@   assigns b.nextBuf, b.nextIdx, b.timeout, b.newTimeout, recvd
+//@   ensures tbWF(b) && cur(b) == old(cur(b))
+//@   ensures r1 == nil ==> len(r0) > 0 && b.nextBuf != nil && b.nextIdx < len(b.nextBuf) && ref(r0) == ref(b.nextBuf) && \
+//@       off(r0) == off(b.nextBuf) + b.nextIdx && len(r0) == len(b.nextBuf) - b.nextIdx
+//@   ensures r1 == nil ==> (forall j int {r0[j]} :: 0 <= j && j < len(r0) ==> r0[j] == G[b][cur(b) + j])
+//@   ensures r1 == nil && recvd[b] != old(recvd)[b] ==> old(b.nextBuf == nil || b.nextIdx >= len(b.nextBuf))
+//@   ensures r1 != nil ==> recvd == old(recvd) && same(b.nextBuf, old(b.nextBuf)) && b.nextIdx == old(b.nextIdx)
+//@   ensures forall o int {recvd[o]} :: o != b ==> recvd[o] == old(recvd)[o]
+//@   loop 1
+//@     invariant recvd == old(recvd) && same(b.nextBuf, old(b.nextBuf)) && b.nextIdx == old(b.nextIdx)
+//@     invariant b.nextBuf == nil || b.nextIdx >= len(b.nextBuf)
+//@ end
+
+//@ # the line buffer holds exactly G[b][p .. p+n)
+//@ pure lineIs(b *trzszBuffer, p int, n int) bool = \
+//@     bufLen[b.readBuf] == n && \
+//@     (forall j int {heap("byte")[bufArr[b.readBuf]][j]} :: 0 <= j && j < n ==> heap("byte")[bufArr[b.readBuf]][j] == G[b][p + j])
+
+//@ func trzszBuffer.readLine
+//@   requires tbWF(b)
+//@   ensures tbWF(b)
+//@   ensures forall o int {recvd[o]} :: o != b ==> recvd[o] == old(recvd)[o]
+//@   # the cursor stops right after the line feed that ended the line; no Ctrl-C was passed over
+//@   ensures err == nil ==> cur(b) > old(cur(b)) && G[b][cur(b) - 1] == 10
+//@   ensures err == nil ==> (forall q int {G[b][q]} :: old(cur(b)) <= q && q < cur(b) ==> G[b][q] != 3)
+//@   ensures err == nil ==> (forall j int {r0[j]} :: 0 <= j && j < len(r0) ==> r0[j] != 10 && r0[j] != 3)
+//@   # strict mode: the line is exactly the bytes up to the FIRST line feed - a function of the
+//@   # stream and the cursor only, whatever the chunking
+//@   ensures err == nil && !mayHasJunk ==> len(r0) == cur(b) - 1 - old(cur(b)) && \
+//@       (forall j int {r0[j]} :: 0 <= j && j < len(r0) ==> r0[j] == G[b][old(cur(b)) + j]) && \
+//@       (forall q int {G[b][q]} :: old(cur(b)) <= q && q < cur(b) - 1 ==> G[b][q] != 10)
+//@   # junk mode: a line never ends in the carriage return of a CR-LF wrap
+//@   ensures err == nil && mayHasJunk && len(r0) > 0 ==> r0[len(r0) - 1] != 13
+//@   loop 1
+//@     invariant tbWF(b) && cur(b) >= old(cur(b))
+//@     invariant forall o int {recvd[o]} :: o != b ==> recvd[o] == old(recvd)[o]
+//@     invariant forall q int {G[b][q]} :: old(cur(b)) <= q && q < cur(b) ==> G[b][q] != 3
+//@     invariant 0 <= bufLen[b.readBuf] && bufLen[b.readBuf] <= bufCap[b.readBuf]
+//@     invariant forall j int {heap("byte")[bufArr[b.readBuf]][j]} :: 0 <= j && j < bufLen[b.readBuf] ==> \
+//@         heap("byte")[bufArr[b.readBuf]][j] != 10 && heap("byte")[bufArr[b.readBuf]][j] != 3
+//@     invariant !mayHasJunk ==> lineIs(b, old(cur(b)), cur(b) - old(cur(b))) && \
+//@         (forall q int {G[b][q]} :: old(cur(b)) <= q && q < cur(b) ==> G[b][q] != 10)
+//@ end
+
+//@ func trzszBuffer.readBinary
+//@   requires tbWF(b)
+//@   ensures tbWF(b)
+//@   ensures forall o int {recvd[o]} :: o != b ==> recvd[o] == old(recvd)[o]
+//@   # exactly size bytes, the next size bytes of the stream, whatever the chunking
+//@   ensures err == nil && size >= 0 ==> len(r0) == size && cur(b) == old(cur(b)) + size && \
+//@       (forall j int {r0[j]} :: 0 <= j && j < size ==> r0[j] == G[b][old(cur(b)) + j])
+//@   ensures err == nil && size < 0 ==> len(r0) == 0 && cur(b) == old(cur(b))
+//@   loop 1
+//@     invariant tbWF(b) && cur(b) >= old(cur(b))
+//@     invariant forall o int {recvd[o]} :: o != b ==> recvd[o] == old(recvd)[o]
+//@     invariant lineIs(b, old(cur(b)), cur(b) - old(cur(b)))
+//@     invariant bufLen[b.readBuf] <= size || bufLen[b.readBuf] == 0
+//@     invariant bufLen[b.readBuf] <= bufCap[b.readBuf]
+//@ end
+
+// ===========================================================================
+// error values (comm.go): constructing an error changes nothing the caller can see
+// ===========================================================================
+
+//@ func simpleTrzszError pure
+//@   ensures r0 != nil && r0 > old(alloc())
+//@ end
+//@ # ASSUMED (not proved): the body runs base64/zlib decoding and debug.Stack(), external
+//@ # code without contracts; none of it can write memory the caller holds.
+//@ func newTrzszError trusted pure
+//@   ensures r0 != nil && r0 > old(alloc())
+//@ end
+//@ func trzszError.isTraceBack pure
+//@ end
+
+//@ # popBuffer hands out, in stream order, first the unread rest of the current chunk, then
+//@ # the next queued chunk, else nil; the cursor advances by exactly what was handed out.
+//@ func trzszBuffer.popBuffer
+//@   requires tbWF(b)
+//@   assigns b.nextBuf, b.nextIdx, recvd
+//@   ensures tbWF(b) && (b.nextBuf == nil || b.nextIdx >= len(b.nextBuf))
+//@   ensures forall o int {recvd[o]} :: o != b ==> recvd[o] == old(recvd)[o]
+//@   ensures cur(b) == old(cur(b)) + len(r0)
+//@   ensures forall j int {r0[j]} :: 0 <= j && j < len(r0) ==> r0[j] == G[b][old(cur(b)) + j]
+//@   ensures old(b.nextBuf != nil && b.nextIdx < len(b.nextBuf)) ==> recvd == old(recvd) && len(r0) > 0
+//@   ensures r0 == nil ==> recvd == old(recvd)
+//@ end
